@@ -96,16 +96,18 @@ def extra_run_pairs(man, tier, seed):
         a_stat = impl[b + 3]
         if a_stat not in ('NOOP', 'PANIC', 'HANG', 'DIED') and not a_stat.startswith('BAD') and impl[b + 1] not in ('PANIC', 'HANG'):
             scale = sum(abs(float(v)) for v in xs + ys if not isinstance(v, bool)) + 1.0
-            ok, detail = cmp_tokens(a_stat, impl[b + 1], 1e-9, 1e-9 * scale * scale)
+            # sums of squares only enter the Gaussian-likelihood updates; everything else is linear in the data
+            ok, detail = cmp_tokens(a_stat, impl[b + 1], 1e-9, 1e-9 * (scale * scale if lik == 'Gaussian' else 1.0) + 1e-12 * scale)
             if not ok:
                 failures.append({'site': post, 'case': lines[b + 1], 'impl': impl[b + 1], 'expected': a_stat + ' (posterior from the sufficient statistic of the same data)',
                                  'observed': 'value', 'detail': 'data arm differs from statistic arm: ' + detail, 'stat_case': lines[b + 3]})
         if any(a in ('PANIC', 'HANG') for a in impl[b:b + 3]):
             failures.append({'site': post, 'case': lines[b + 1], 'impl': ' | '.join(impl[b:b + 3]), 'expected': 'a valid posterior',
                              'observed': 'panic', 'detail': 'posterior panicked on valid prior and data'})
+    gauss_priors = {p_[0] for p_ in PAIRS if p_[1] == 'Gaussian'}
     for (prior, b, xs, ys), a in zip(m2, i2):
         scale = sum(abs(float(v)) for v in xs + ys if not isinstance(v, bool)) + 1.0
-        ok, detail = cmp_tokens(a, impl[b + 1], 1e-9, 1e-9 * scale * scale)
+        ok, detail = cmp_tokens(a, impl[b + 1], 1e-9, 1e-9 * (scale * scale if prior in gauss_priors else 1.0) + 1e-12 * scale)
         if not ok:
             failures.append({'site': f'{prior}.posterior', 'case': l2[0] if False else f'sequential: {lines[b + 2]} then {data_tok(ys)}',
                              'impl': a, 'expected': impl[b + 1] + ' (batch posterior)', 'observed': 'value', 'detail': detail})
